@@ -21,6 +21,25 @@ CATS = ['A', 'B', 'C', 'D']
 AUTO_PREFIX = '__lctxdb_cat_'
 MAX_DBS = 6
 PROBE_ALPHABET = '~&`x'
+# the 'wide' batch: many categories, long derivation chains, names shared between kinds, long specials
+WIDE_NAMES = {'macros': ['a', 'b', 'c', 'e', 'ab', 'abc', u'\u00e9', 'aaaaaaaaaaaa', 'aaaaaaaaaaab'],
+              'environments': ['e', 'f', 'a', 'b', u'\u00e9', 'abc'],
+              'specials': ['~', '~~', '~~~', '~~~~', '&', '``', '`', '<<', '<<-', '<<->>', u'\u00e4~', '&~&~&']}
+WIDE_PROBE_ALPHABET = u'~&`<->x\u00e4'
+
+
+def universe(program):
+    """Per kind: the names that may be defined, and the names every database is asked about (in the
+    wide batch every name is asked under every kind)."""
+    if program.get('wide'):
+        union = sorted(set(WIDE_NAMES['macros']) | set(WIDE_NAMES['environments']))
+        ask = {'macros': union + ['~', 'zz'], 'environments': union + ['&', 'zz'],
+               'specials': WIDE_NAMES['specials'] + ['a', '!!']}
+        return {'define': WIDE_NAMES, 'ask': ask}
+    return {'define': NAMES, 'ask': {k: NAMES[k] + [UNKNOWN_NAME[k]] for k in KINDS}}
+
+
+DEFAULT_U = {'define': NAMES, 'ask': {k: NAMES[k] + [UNKNOWN_NAME[k]] for k in KINDS}}
 
 ASSUMPTIONS = [
     "semantics of the model are the docstrings of LatexContextDb: placement rules, first-match lookup, "
@@ -104,7 +123,72 @@ def _catref(rng):
     return 'Z'       # never exists
 
 
+def _wide_program(rng, tier, run):
+    """Volume: dozens of categories, derivation chains tens of levels deep, names that exist under
+    several kinds, long specials, spec objects registered in several categories."""
+    D = WIDE_NAMES
+
+    def contents(p):
+        return {'macros': _subset(rng, D['macros'], p), 'environments': _subset(rng, D['environments'], p),
+                'specials': _subset(rng, D['specials'], p * 0.8)}
+
+    def reuse(c):
+        return [[k, n] for k in KINDS for n in c[k] if rng.random() < 0.3]
+    big = tier == 'thorough'
+    n_cat = rng.choice([9, 14, 18, 30] + ([45, 70] if big else []))
+    chain = rng.choice([3, 10, 18, 24] + ([40, 70] if big else []))
+    p = rng.choice([0.08, 0.15, 0.3])
+    ops = [['new_db']]
+    cats = []
+    for i in range(n_cat):
+        cat = 'K%02d' % i if rng.random() < 0.9 else None
+        y = rng.random()
+        if y < 0.35 or not cats:
+            placement = {}
+        elif y < 0.5:
+            placement = {'prepend': True}
+        elif y < 0.75:
+            placement = {'insert_before': rng.choice(cats)}
+        else:
+            placement = {'insert_after': rng.choice(cats)}
+        c = contents(p)
+        ops.append(['add', 0, cat, c, placement, rng.random() < 0.2, reuse(c)])
+        if cat:
+            cats.append(cat)
+        if rng.random() < 0.05:
+            ops.append(['set_unknown', 0, rng.choice(KINDS), rng.random() < 0.85])
+    if rng.random() < 0.3:
+        ops.append(['filter', 0, [], [], [], False, False])
+        ops.append(['add', -1, 'K99', contents(p), {'prepend': True}, False, []])
+    n_live = 2 if ops[-1][0] == 'add' and ops[-1][1] == -1 else 1
+    for i in range(chain):
+        x = rng.random()
+        if n_live >= MAX_DBS - 1:
+            ops.append(['drop', rng.randrange(100)])
+            n_live -= 1
+        if x < 0.78:
+            cat = 'X%02d' % i if rng.random() < 0.75 else None
+            c = contents(rng.choice([0.05, 0.12, 0.3]))
+            unk = {}
+            if rng.random() < 0.1:
+                unk[rng.choice(KINDS)] = rng.random() < 0.8
+            ops.append(['extend', -1, cat, c, unk, True, rng.random() < 0.08, reuse(c)])
+        elif x < 0.9:
+            excl = [rng.choice(cats)] if rng.random() < 0.5 else []
+            which = [] if rng.random() < 0.7 else _subset(rng, KINDS, 0.6)
+            ops.append(['filter', -1, [], excl, which, False, False])
+        else:
+            # a sibling: derive from an older database again
+            ops.append(['extend', rng.randrange(100), 'Y%02d' % i, contents(0.2), {}, True, False, []])
+        n_live += 1
+    probes = [''.join(rng.choice(WIDE_PROBE_ALPHABET) for _ in range(rng.randint(3, 9))) for _ in range(3)]
+    probes += ['~~~~~``&`', u'<<->><<-<<\u00e4~', '&~&~&~&']
+    return {'batch': 'wide', 'wide': True, 'ops': ops, 'probes': probes}
+
+
 def generate(rng, tier, run):
+    if run % 100 == 99:
+        return _wide_program(rng, tier, run)
     sel = run % 10
     batch = 'plain' if sel < 5 else ('contract' if sel < 8 else 'collab')
     if tier == 'thorough' and rng.random() < 0.3:
@@ -231,12 +315,13 @@ class Model(object):
                     best, best_len = spec, len(chars)
         return best
 
-    def snapshot(self, probes):
+    def snapshot(self, probes, U=None):
+        U = U or DEFAULT_U
         snap = {'categories': self.names(), 'frozen': self.frozen, 'categories_is_a_copy': True,
                 'lookup': {}, 'iter': {}, 'iter_all': {}, 'iter_rev': {}, 'specials': {}}
         for kind in KINDS:
             lk = {}
-            for name in NAMES[kind] + [UNKNOWN_NAME[kind]]:
+            for name in U['ask'][kind]:
                 found = self.lookup(kind, name)
                 if found is KeyError:
                     lk[name] = [tag_of(self.unknown[kind]), 'KeyError']
@@ -261,10 +346,11 @@ class Model(object):
             {k: tag_of(v) for k, v in self.unknown.items()}, self.frozen])
 
 
-def snapshot(db, probes):
+def snapshot(db, probes, U=None):
     """Complete query snapshot of a real database through its public API.  An
     exception raised by a query is recorded as the answer (and will differ
     from the model's)."""
+    U = U or DEFAULT_U
     try:
         cats = list(db.categories())
     except Exception as e:
@@ -289,7 +375,7 @@ def snapshot(db, probes):
             return ['EXC:' + type(e).__name__]
     for kind in KINDS:
         lk = {}
-        for name in NAMES[kind] + [UNKNOWN_NAME[kind]]:
+        for name in U['ask'][kind]:
             try:
                 a = tag_of(getters[kind](name))
             except Exception as e:
@@ -358,13 +444,14 @@ def first_diff(a, b, path=''):
     return None
 
 
-def model_free_order_check(snap):
+def model_free_order_check(snap, U=None):
     """Invariant 3: the returned definition is the one of the first category,
     in the *reported* order, whose own iteration contains that name."""
+    U = U or DEFAULT_U
     if not isinstance(snap.get('categories'), list):
         return None
     for kind in KINDS:
-        for name in NAMES[kind]:
+        for name in U['define'][kind]:
             want = None
             for c in snap['categories']:
                 hits = [t for t in snap['iter'][kind][c] if t and t.split('#')[0] == kind[0] + ':' + name]
@@ -429,13 +516,32 @@ def execute(program):
     nontrivial = False
     stop = False
 
+    U = universe(program)
+    made = {}           # (kind, name) -> the spec object created last for it (wide batch: objects registered twice)
+    prev_after = None
+
     def snaps():
-        return [snapshot(db, probes) for db, _, _ in live]
+        return [snapshot(db, probes, U) for db, _, _ in live]
+
+    def mk_specs(k, names, opi, reuse=()):
+        out = []
+        for n in names:
+            if [k, n] in reuse and (k, n) in made:
+                out.append(made[(k, n)])
+                stats.inc('probe:spec-object-registered-again')
+            else:
+                sp = _mk_specs(k, [n], opi)[0]
+                made[(k, n)] = sp
+                out.append(sp)
+        return out
 
     try:
         for opi, op in enumerate(program['ops']):
             kind = op[0]
-            before = snaps()
+            # nothing happens between two operations: the snapshots taken after the previous one are
+            # the ones from before this one
+            before = prev_after if prev_after is not None and len(prev_after) == len(live) else snaps()
+            prev_after = None
             target = None
             expect_new = None        # model of the db the op is expected to create
             new_db = None
@@ -447,16 +553,25 @@ def execute(program):
                     live.append([LatexContextDb(), Model(), 0])
             elif not live:
                 outcome = 'skipped'
+            elif kind == 'drop':
+                # the application lets go of a database (never the first one)
+                if len(live) > 2:
+                    j = 1 + op[1] % (len(live) - 1)
+                    del live[j]
+                    del before[j]
+                    stats.inc('op:drop')
+                else:
+                    outcome = 'skipped'
             else:
                 target = op[1] % len(live)
                 db, m, depth = live[target]
                 names = m.names()
                 # ---------------------------------------------------- add
                 if kind == 'add':
-                    _, _, cat, contents, placement, as_gen = op
+                    _, _, cat, contents, placement, as_gen = op[:6]
                     placement = {k: (_resolve(v, names) if isinstance(v, str) else v)
                                  for k, v in placement.items()}
-                    specs = {k: _mk_specs(k, contents[k], opi) for k in KINDS}
+                    specs = {k: mk_specs(k, contents[k], opi, op[6] if len(op) > 6 else ()) for k in KINDS}
                     n_place = len([1 for v in placement.values() if v])
                     reject = None
                     if m.frozen:
@@ -498,7 +613,7 @@ def execute(program):
                             got = db.categories()
                             if len(got) != len(names) + 1 or pos >= len(got) or \
                                got[:pos] != names[:pos] or got[pos + 1:] != names[pos:] or \
-                               got[pos] in names or got[pos] in CATS or not isinstance(got[pos], str):
+                               got[pos] in names or got[pos] in CATS or not isinstance(got[pos], str) or got[pos].startswith(('K', 'X')):
                                 raise Violation('categories-order', op_index=opi, db=target,
                                                 observed=got,
                                                 expected=names[:pos] + ['<auto>'] + names[pos:])
@@ -612,8 +727,8 @@ def execute(program):
                         if freeze_first and not m.frozen:
                             db.freeze()
                             m.frozen = True
-                            before[target] = snapshot(db, probes)
-                        specs = {k: _mk_specs(k, contents[k], opi) for k in KINDS}
+                            before[target] = snapshot(db, probes, U)
+                        specs = {k: mk_specs(k, contents[k], opi, op[7] if len(op) > 7 else ()) for k in KINDS}
                         kw = {}
                         unk_specs = {}
                         for k, present in sorted(unk.items()):
@@ -672,7 +787,7 @@ def execute(program):
                             else:
                                 if cat is None:
                                     if len(got) != len(names) + 1 or got[1:] != names or \
-                                       got[0] in names or got[0] in CATS or not isinstance(got[0], str):
+                                       got[0] in names or got[0] in CATS or not isinstance(got[0], str) or got[0].startswith(('K', 'X')):
                                         raise Violation('categories-order', op_index=opi, db=target,
                                                         observed=got, expected=['<auto>'] + names)
                                     newcat = got[0]
@@ -737,6 +852,7 @@ def execute(program):
             if new_db is not None and expect_new is not None:
                 live.append([new_db, expect_new, live[target][2] + 1])
             after = snaps()
+            prev_after = after
             # isolation / failed-operation: nothing but the target may move
             for j, snap_before in enumerate(before):
                 if j == target and outcome == 'ok' and kind in ('add', 'set_unknown', 'freeze', 'walker'):
@@ -758,7 +874,7 @@ def execute(program):
                 break
             # model agreement and model-free order, for every live database
             for j, (dbj, mj, _) in enumerate(live):
-                want = mj.snapshot(probes)
+                want = mj.snapshot(probes, U)
                 d = first_diff(want, after[j])
                 if d:
                     where = d[0]
@@ -773,7 +889,7 @@ def execute(program):
                     else:
                         inv = 'lookup-follows-reported-order'
                     raise Violation(inv, op_index=opi, db=j, where=where, observed=d[2], expected=d[1])
-                d = model_free_order_check(after[j])
+                d = model_free_order_check(after[j], U)
                 if d:
                     raise Violation('lookup-follows-reported-order', op_index=opi, db=j,
                                     where=d[0], observed=d[1], expected=d[2])
@@ -839,6 +955,10 @@ def shrink_candidates(program):
             yield repl(op[:4] + [{}] + op[5:])
         if op[0] in ('filter', 'extend') and len(op) > 6 and op[6]:
             yield repl(op[:6] + [False])
+        if op[0] == 'add' and len(op) > 6 and op[6]:
+            yield repl(op[:6] + [[]])
+        if op[0] == 'extend' and len(op) > 7 and op[7]:
+            yield repl(op[:7] + [[]])
         if len(op) > 1 and isinstance(op[1], int) and op[1] > 5:
             yield repl([op[0], op[1] % 6] + op[2:])
 
